@@ -352,6 +352,8 @@ def extOf (cfg : Cfg) : Ext XWorld where
   t_sync_file_with_delta _ s d := op fun xw => xw.at d fun k => copyW cfg xw s k
   t_remove _ p isDir := op fun xw => xw.at p fun k => (removeW xw.w k isDir).map fun w' => ((), w')
   t_create_symlink _ t p := op fun xw => xw.at p fun k => (writeSymlink xw.w k (String.ofList t)).map fun w' => ((), w')
+  t_read_link _ p := op fun xw => xw.at p fun k =>
+    some ((match xw.w.dst.get? k with | some (.symlink t) => some t.toList | _ => none), xw.w)
   path_exists p := op fun xw => (.ok (xw.srcExists p), xw)
   path_is_dir p := op fun xw => (.ok (xw.srcIsDir p), xw)
   write_xattrs _ e p := op fun xw => (.ok (), if cfg.xattrs then xw.writeX e p else xw)
